@@ -44,7 +44,22 @@ type Pkg struct {
 	Comps bool `json:"comps"`
 	// bad digest in the manifest lock file (ImageWithDigest fails)
 	BadLock bool `json:"badlock"`
+	// Package NAME (metadata.name of the manifest).  "" = every image is a package of its own ("pkg<idx>").
+	// Images carrying the same non-empty Name are different VERSIONS / builds of ONE package: their manifests
+	// all say metadata.name "fam-<Name>" and may differ in everything else (config schema, constraints, ...).
+	Name string `json:"name,omitempty"`
+	// config schema of the manifest (spec.config.openAPIV3Schema; components carry the same one):
+	//  ""     x: string, default "none"                      (configs 0,1,2,4 admitted; 3 violates)
+	//  enum   x: string, default "none", enum [none, a]      (stricter: config 2 violates as well)
+	//  int    x: integer, default 0                          (other type: 1,2,4 violate, 3 is admitted)
+	//  req    x: string, no default, required                (stricter: config 0 violates as well)
+	//  dflt   x: string, default "other"                     (same admission, other default)
+	//  open   x: string, default "none"; y: string, default "dy" (looser: y of config 4 is kept, not pruned)
+	Schema string `json:"schema,omitempty"`
 }
+
+// Schemas lists the config schema variants (Pkg.Schema).
+var Schemas = []string{"", "enum", "int", "req", "dflt", "open"}
 
 // Env is the environment the package is installed into.
 type Env struct {
@@ -68,11 +83,19 @@ type Env struct {
 //	pause / unpause: the user sets / clears spec.paused of the Package (C09 stream pkgpause)
 //	tp:   a third party edits the ObjectDeployment directly (C09 stream pkgpause): F = odpause | odunpause
 //	      (sets / clears spec.paused of the ObjectDeployment) | oddel (deletes it); no-op when it is absent
+//
+//	restart: the operator process is restarted (ctrl stream): the controller with everything it holds in
+//	      memory is built anew by the real constructors; the API (Packages, ObjectDeployments) stays.
+//
+// P (ctrl stream) = index of the Package an edit / pass is about: 0 = the Package with the initial spec
+// Scn.Spec, i > 0 = the Package with the initial spec Scn.More[i-1].  All Packages are served by the same
+// operator process (one controller), each in a namespace (cluster scope: under a name) of its own.
 type Op struct {
 	Op    string `json:"op"`
 	F     string `json:"f"`
 	V     int    `json:"v"`
 	Fault string `json:"fault"`
+	P     int    `json:"p,omitempty"`
 }
 
 type Scn struct {
@@ -89,6 +112,12 @@ type Scn struct {
 	Ops  []Op   `json:"ops"`
 	// spec.paused of the Package when it is created (mode pkgpause)
 	Paused bool `json:"paused,omitempty"`
+	// ctrl stream: initial specs [image, config, component] of the Packages 1, 2, ... that the same operator
+	// process serves next to Package 0 (Op.P)
+	More [][]int `json:"more,omitempty"`
+	// deploy stream: Deploy calls [image, config, component] the same process has served for OTHER Packages
+	// (each against an API of its own) before the observed call
+	Warm [][]int `json:"warm,omitempty"`
 }
 
 // ---------------------------------------------------------------- real inputs
@@ -121,14 +150,63 @@ func ConfigRaw(i int) *apiruntime.RawExtension {
 	return nil
 }
 
+// Every scenario is the history of an operator process of its own.  The harness cannot start a process per
+// scenario, so scenarios are kept apart by NAMES: every package / component name a scenario uses carries the
+// number of the scenario (epoch) as a suffix, which the observation functions strip again.  Whatever the code
+// under test keeps in process-wide state about a package name is thus never shared between two scenarios, and
+// a replay of one scenario alone sees what the scenario saw in the full run.
+var epoch int
+
+// NewEpoch starts a new scenario.
+func NewEpoch() { epoch++ }
+
+func epochSuffix() string { return fmt.Sprintf("-e%d", epoch) }
+
+// StripEpoch removes the scenario suffix from a package / component name.
+func StripEpoch(v string) string {
+	if i := strings.LastIndex(v, "-e"); i >= 0 {
+		if _, err := strconv.Atoi(v[i+2:]); err == nil {
+			return v[:i]
+		}
+	}
+	return v
+}
+
 func ComponentName(i int) string {
 	switch i {
 	case 1:
-		return "c1"
+		return "c1" + epochSuffix()
 	case 2:
 		return "missing"
 	}
 	return ""
+}
+
+// ManifestName is metadata.name of the manifest of image idx.
+func ManifestName(p Pkg, idx int) string {
+	if p.Name != "" {
+		return "fam-" + p.Name + epochSuffix()
+	}
+	return fmt.Sprintf("pkg%d", idx) + epochSuffix()
+}
+
+func schemaYAML(variant string) string {
+	b := "  config:\n    openAPIV3Schema:\n      type: object\n      properties:\n        x:\n"
+	switch variant {
+	case "enum":
+		b += "          type: string\n          default: none\n          enum: [none, a]\n"
+	case "int":
+		b += "          type: integer\n          default: 0\n"
+	case "req":
+		b += "          type: string\n      required: [x]\n"
+	case "dflt":
+		b += "          type: string\n          default: other\n"
+	case "open":
+		b += "          type: string\n          default: none\n        \"y\":\n          type: string\n          default: dy\n"
+	default:
+		b += "          type: string\n          default: none\n"
+	}
+	return b
 }
 
 func PackageEnv(e Env) *manifests.PackageEnvironment {
@@ -168,7 +246,7 @@ func manifestYAML(p Pkg, name string, scope string, components bool) string {
 	if components {
 		b.WriteString("  components: {}\n")
 	}
-	b.WriteString("  config:\n    openAPIV3Schema:\n      type: object\n      properties:\n        x:\n          type: string\n          default: none\n")
+	b.WriteString(schemaYAML(p.Schema))
 	if len(p.Cons) > 0 {
 		b.WriteString("  constraints:\n")
 		for _, c := range p.Cons {
@@ -198,6 +276,9 @@ func objectTemplate(p Pkg, id string) string {
 		b.WriteString("  annotations:\n    package-operator.run/phase: main\n")
 	}
 	b.WriteString("data:\n  id: " + id + "\n  image: \"{{ .package.image }}\"\n  x: \"{{ .config.x }}\"\n")
+	if p.Schema == "open" {
+		b.WriteString("  \"y\": \"{{ .config.y }}\"\n") // quoted: a bare y is a YAML 1.1 boolean
+	}
 	if p.Render == "tmplerr" {
 		b.WriteString("  boom: \"{{ fail \\\"boom\\\" }}\"\n")
 	}
@@ -209,7 +290,8 @@ const lockDigest = "sha256:52a6b1268e32ed5b6f59da8222f7627979bfb739f32aae3fb5b5e
 // Files builds the REAL file set of package image number idx.
 func Files(p Pkg, idx int, scope string) map[string][]byte {
 	f := map[string][]byte{}
-	name := fmt.Sprintf("pkg%d", idx)
+	name := ManifestName(p, idx)
+	c1 := "components/" + ComponentName(1) + "/"
 	put := func(prefix, id string, components bool) {
 		f[prefix+"manifest.yaml"] = []byte(manifestYAML(p, name, scope, components))
 		f[prefix+"cm.yaml.gotmpl"] = []byte(objectTemplate(p, id))
@@ -223,7 +305,7 @@ func Files(p Pkg, idx int, scope string) map[string][]byte {
 	}
 	put("", fmt.Sprintf("p%d", idx), p.Comps)
 	if p.Comps {
-		put("components/c1/", fmt.Sprintf("p%dc1", idx), false)
+		put(c1, fmt.Sprintf("p%dc1", idx), false)
 	}
 	switch p.Load {
 	case "nomanifest":
@@ -263,6 +345,26 @@ type Client struct {
 	// still gets in front of (armed by the fault "conflict<N>"), and third-party writes made so far.
 	conflicts int
 	tpn       int
+	// the other Packages of the API and their ObjectDeployments (see Select)
+	slots map[int][2]client.Object
+	cur   int
+}
+
+// Select makes Package i (and its ObjectDeployment) the one the API serves: Pkg / OD of the Package served so
+// far are put aside and those of Package i are put in place (nil = they do not exist).  A reconcile pass only
+// ever reads and writes the Package it is about and the ObjectDeployment of the same name in the same
+// namespace (every other call of the client panics), and passes do not overlap, so an API that holds one
+// Package at a time is indistinguishable from one that holds them all.
+func (c *Client) Select(i int) {
+	if i == c.cur {
+		return
+	}
+	if c.slots == nil {
+		c.slots = map[int][2]client.Object{}
+	}
+	c.slots[c.cur] = [2]client.Object{c.Pkg, c.OD}
+	sl := c.slots[i]
+	c.Pkg, c.OD, c.cur = sl[0], sl[1], i
 }
 
 // ConflictCount parses the fault "conflict<N>" (0 = not a conflict fault).
@@ -606,7 +708,11 @@ func TemplateID(od client.Object) string {
 				ids = append(ids, "old")
 				continue
 			}
-			ids = append(ids, fmt.Sprintf("%v.%d.%v", data["id"], ImageIndex(fmt.Sprint(data["image"])), data["x"]))
+			id := fmt.Sprintf("%v.%d.%v", data["id"], ImageIndex(fmt.Sprint(data["image"])), data["x"])
+			if y, ok := data["y"]; ok {
+				id += fmt.Sprintf("/%v", y) // templates of packages with the "open" schema also show .config.y
+			}
+			ids = append(ids, id)
 		}
 	}
 	if len(ids) == 0 {
@@ -654,7 +760,7 @@ func metaMapID(m map[string]string) string {
 		case k == constants.ChangeCauseAnnotation:
 			out = append(out, "cc:"+causeID(v))
 		case k == manifestsv1alpha1.PackageLabel:
-			out = append(out, "pkg:"+strings.Map(idChar, v))
+			out = append(out, "pkg:"+strings.Map(idChar, StripEpoch(v)))
 		case k == manifestsv1alpha1.PackageInstanceLabel:
 			out = append(out, "inst:"+strings.Map(idChar, v))
 		case strings.HasPrefix(k, ThirdPartyKeyPrefix):
@@ -808,5 +914,57 @@ func RandomScn(r Rng, mode string) Scn {
 		}
 	}
 	s.Ops = append(s.Ops, Op{Op: "pass"})
+	return s
+}
+
+// RandomVersionScn: a ctrl history of one operator process serving 1-3 Packages from 2-4 images that are
+// versions of one or two packages (same manifest name) with random config schemas; spec edits, passes
+// with faults and operator restarts in any order.
+func RandomVersionScn(r Rng) Scn {
+	s := Scn{Mode: "ctrl", Scope: pick(r, "ns", "ns", "cluster"), Env: Env{K8sNew: true, Ocp: r.Intn(3) == 0}, Uniq: "1"}
+	np := 2 + r.Intn(3)
+	for i := 0; i < np; i++ {
+		p := Pkg{Load: "ok", Render: "ok", Comps: r.Intn(2) == 0, Name: pick(r, "f", "f", "f", "g", ""),
+			Schema: Schemas[r.Intn(len(Schemas))]}
+		switch r.Intn(12) {
+		case 0:
+			p.Render = pick(r, "nophases", "tmplerr", "dup")
+		case 1:
+			p.Cons = []string{pick(r, "platform", "k8s", "ocp")}
+		case 2:
+			p.Load = pick(r, "nomanifest", "badyaml")
+		}
+		s.Pkgs = append(s.Pkgs, p)
+	}
+	cfg := func() int { return []int{0, 1, 2, 3, 4, 4, 5}[r.Intn(7)] }
+	comp := func() int { return []int{0, 0, 1, 1, 2}[r.Intn(5)] }
+	s.Spec = []int{r.Intn(np), cfg(), comp()}
+	for n := []int{0, 1, 1, 2}[r.Intn(4)]; n > 0; n-- {
+		s.More = append(s.More, []int{r.Intn(np), cfg(), comp()})
+	}
+	nk := 1 + len(s.More)
+	n := 3 + r.Intn(10)
+	for i := 0; i < n; i++ {
+		k := r.Intn(nk)
+		switch x := r.Intn(12); {
+		case x < 6:
+			f := ""
+			if r.Intn(5) == 0 {
+				f = ctrlFaults[r.Intn(len(ctrlFaults))]
+			}
+			s.Ops = append(s.Ops, Op{Op: "pass", Fault: f, P: k})
+		case x < 8:
+			s.Ops = append(s.Ops, Op{Op: "edit", F: "image", V: r.Intn(np), P: k})
+		case x < 10:
+			s.Ops = append(s.Ops, Op{Op: "edit", F: "config", V: cfg(), P: k})
+		case x < 11:
+			s.Ops = append(s.Ops, Op{Op: "edit", F: "component", V: comp(), P: k})
+		default:
+			s.Ops = append(s.Ops, Op{Op: "restart"})
+		}
+	}
+	for k := 0; k < nk; k++ {
+		s.Ops = append(s.Ops, Op{Op: "pass", P: k})
+	}
 	return s
 }
